@@ -937,7 +937,13 @@ fn public_id(input: &str) -> IResult<&str, &str> {
 fn ns_att_name(input: &str) -> IResult<&str, model::AttributeName<'_>> {
     alt((
         map(preceded(tag("xmlns:"), ncname), model::AttributeName::from), // [2] PrefixedAttName
-        map(tag("xmlns"), |_| model::AttributeName::default()),           // [3] DefaultAttName
+        // [3] DefaultAttName: the whole name, not a name that merely begins with `xmlns`.
+        map(
+            verify(qname, |v: &xml_nom::model::QName| {
+                *v == xml_nom::model::QName::Unprefixed("xmlns")
+            }),
+            |_| model::AttributeName::default(),
+        ),
     ))(input)
 }
 
